@@ -37,3 +37,65 @@ Print Assumptions C05_instants_only.
 Print Assumptions C05_us_es_365.
 Print Assumptions C05_generic_configured.
 Print Assumptions C05_jp_ie_never.
+
+(** ------------------------------------------------------------------------------------------------------------
+    The generic plugin's threshold comes from the environment variable LONG_TERM_CAPITAL_GAINS
+    (plugin/country/generic.py: [int(...)], rejecting a missing / empty / non-integer / negative value).
+    [C05_generic_configured] above takes the parsed number as given; here the parsing itself is modelled
+    (Model/EntryC05Env.v: [generic_period_of_env max_digits v], [v = None] when the variable is not set, for ASCII values;
+    [max_digits] = sys.get_int_max_str_digits() of the interpreter, 4300 by default, 0 = unlimited) and compared with the
+    implementation on every run (driver cmd 4, harness/props/c05.py).  Proofs: Proofs/C05Env.v. *)
+From Coq Require Import List.
+From RP2V Require Import Model.EntryC05Env Proofs.C05Env.
+
+(** a plain decimal literal of n >= 0 ([decimal_literal n] = str(n)) is accepted, and n is then the threshold of the
+    long/short classification *)
+Theorem C05_generic_env_accepts : forall md n, 0 <= n -> md = 0 \/ Z.of_nat (length (decimal_literal n)) <= md ->
+  generic_period_of_env md (Some (decimal_literal n)) = Ok n /\ generic_threshold md (Some (decimal_literal n)) = Ok n /\
+  forall ev lot, gl_is_long (country_period GENERIC n) ev (Some lot) = true <-> n * US_PER_DAY <= utc_us (t_ts ev) - utc_us (i_ts lot).
+Proof. exact generic_env_accepts. Qed.
+Theorem C05_decimal_literal_is_n : forall n, 0 <= n ->
+  decimal_literal n <> nil /\ all_digits (decimal_literal n) /\ digits_value (decimal_literal n) = n.
+Proof. exact (fun n Hn => conj (proj1 (decimal_literal_digits n Hn)) (conj (proj2 (decimal_literal_digits n Hn)) (decimal_literal_value n Hn))). Qed.
+(** more generally any non-empty string of digits (leading zeros included) is accepted with its value *)
+Theorem C05_generic_env_accepts_digits : forall md s, s <> nil -> all_digits s -> md = 0 \/ Z.of_nat (length s) <= md ->
+  generic_period_of_env md (Some s) = Ok (digits_value s) /\ generic_threshold md (Some s) = Ok (digits_value s).
+Proof. exact generic_env_accepts_digits. Qed.
+
+(** rejected: not set / empty; a character that is neither digit, underscore, sign nor (C) white space anywhere in the value;
+    a minus sign before digits of non-zero value; more digits than the interpreter converts *)
+Theorem C05_generic_env_rejects : forall md,
+  (generic_period_of_env md None = Err EValue /\ generic_period_of_env md (Some nil) = Err EValue) /\
+  (forall s c, In c s -> is_digit c = false -> c <> 95 -> c <> 43 -> c <> 45 -> is_c_space c = false ->
+     generic_period_of_env md (Some s) = Err EValue) /\
+  (forall s, s <> nil -> all_digits s -> 0 < digits_value s -> generic_period_of_env md (Some (45 :: s)%list) = Err EValue) /\
+  (forall s, s <> nil -> all_digits s -> 0 < md < Z.of_nat (length s) -> generic_period_of_env md (Some s) = Err EValue).
+Proof.
+  exact (fun md => conj (generic_env_rejects_unset md) (conj (generic_env_rejects_non_numeric md)
+                  (conj (generic_env_rejects_negative md) (generic_env_rejects_too_long md)))).
+Qed.
+(** exactly when a value is accepted: set, non-empty, an integer literal for int(), not negative *)
+Theorem C05_generic_env_ok_iff : forall md v n,
+  generic_period_of_env md v = Ok n <-> exists s, v = Some s /\ s <> nil /\ int_of_ascii md s = Some n /\ 0 <= n.
+Proof. exact generic_env_ok_iff. Qed.
+
+(** non-vacuity / the literal forms int() accepts and rejects (Proofs/C05Env.v [env_examples], [limit_instance],
+    evaluated by the kernel): "365", "0", "+7", " 42 ", "\t42\n", "1_000", "00012", "-0" accepted with 365, 0, 7, 42, 42, 1000, 12, 0;
+    "1__0", "_1", "1_", "0x10", "1e3", "1.5", "-1", "+ 1", "1 2", " ", "\x1c42", "abc", "" and the unset variable rejected *)
+Theorem C05_generic_env_examples :
+  decimal_literal 365 = s365 /\ decimal_literal 0 = (48 :: nil)%list /\
+  generic_threshold 4300 (Some s365) = Ok 365 /\
+  generic_period_of_env 4300 (Some (97 :: 98 :: 99 :: nil)%list) = Err EValue /\
+  generic_period_of_env 4300 (Some (45 :: 51 :: 54 :: 53 :: nil)%list) = Err EValue /\
+  generic_period_of_env 4300 (Some (repeat 57 4301)) = Err EValue.
+Proof.
+  exact (conj (proj1 env_examples) (conj (proj1 (proj2 env_examples)) (conj (proj1 (proj2 (proj2 env_examples)))
+        (conj (proj1 rejects_instances) (conj (proj2 rejects_instances) (proj1 limit_instance)))))).
+Qed.
+
+Print Assumptions C05_generic_env_accepts.
+Print Assumptions C05_decimal_literal_is_n.
+Print Assumptions C05_generic_env_accepts_digits.
+Print Assumptions C05_generic_env_rejects.
+Print Assumptions C05_generic_env_ok_iff.
+Print Assumptions C05_generic_env_examples.
